@@ -218,7 +218,12 @@ fn caseflip(c: &Corpus, _seed: u64, tier: &str) -> Report {
                         if v1 == v0 { continue; }
                         // identifier use: the only difference is this spelling
                         let dbg1 = format!("{v1:?}");
-                        if dbg0.to_ascii_lowercase() == dbg1.to_ascii_lowercase() {
+                        // identifier use: for a table keyword the trees may differ only in the spelling stored in an
+                        // `Ident { value: ".." }`; a word outside the table is an identifier-like name wherever it is stored
+                        // identifier use: the trees differ only by letter case (the spelling travels into a
+                        // name), and no keyword TOKEN kept in the tree changed its spelling
+                        let same = dbg0.to_ascii_lowercase() == dbg1.to_ascii_lowercase() && keyword_tokens(&dbg0) == keyword_tokens(&dbg1);
+                        if same {
                             r.count("identifier-use");
                             continue;
                         }
@@ -247,4 +252,40 @@ fn replace_nth(s: &str, a: &str, b: &str, nth: usize) -> String {
         idx = at + a.len();
     }
     s.to_string()
+}
+
+/// lower-case the contents of every `Ident { value: "…"` in a Debug rendering (only there)
+fn norm_idents(d: &str) -> String {
+    let pat = "Ident { value: \"";
+    let mut out = String::with_capacity(d.len());
+    let mut rest = d;
+    while let Some(p) = rest.find(pat) {
+        out.push_str(&rest[..p + pat.len()]);
+        rest = &rest[p + pat.len()..];
+        // up to the closing quote (Debug escapes inner quotes as \")
+        let mut end = 0;
+        let b = rest.as_bytes();
+        while end < b.len() { if b[end] == b'\\' { end += 2; continue; } if b[end] == b'"' { break; } end += 1; }
+        let end = end.min(rest.len());
+        out.push_str(&rest[..end].to_ascii_lowercase());
+        rest = &rest[end..];
+    }
+    out.push_str(rest);
+    out
+}
+
+/// every `Word { value: "…", quote_style: None, keyword: K }` with K != NoKeyword kept in a tree (Debug)
+fn keyword_tokens(d: &str) -> Vec<String> {
+    let pat = "Word { value: \"";
+    let mut out = vec![];
+    let mut rest = d;
+    while let Some(p) = rest.find(pat) {
+        rest = &rest[p + pat.len()..];
+        if let Some(e) = rest.find(" }") {
+            let item = &rest[..e];
+            if item.contains("quote_style: None") && !item.ends_with("keyword: NoKeyword") { out.push(item.to_string()); }
+        }
+    }
+    out.sort();
+    out
 }
